@@ -271,4 +271,35 @@ def stageCloning (mws : List (List StageInput)) : Except Nat (List (Nat × List 
       | some (.error i) => .error i
       | some (.ok idxs) => .ok (t ++ [(e.1, idxs)])) (.ok [])
 
+/-! ### generic constructors (`ConstructibleDb::get_or_try_bind`, `ConstructiblesInScope::get_or_try_bind`) -/
+
+/-- a generic constructor (`fn f<T>() -> G<T>`) registered against a scope; `insts` are the concrete types it is a
+    template for (↔ `is_a_template_for`, C17) -/
+structure Tmpl where
+  id : Nat
+  insts : List Nat
+  life : Life := .request
+  cloneIfNecessary : Bool := false
+  deriving Repr, DecidableEq
+
+/-- ↔ `ConstructiblesInScope::get_or_try_bind`: the concrete entry of the scope first; otherwise the first template of
+    the SAME scope that can be bound to the type (the bound constructor keeps the template's identity) -/
+def lookupT (regs : List (Nat × Ctor)) (tmpls : List (Nat × Tmpl)) (s ty : Nat) : Option Ctor :=
+  match lookup regs s ty with
+  | some c => some c
+  | none => ((tmpls.filter (fun t => t.1 == s)).find? (fun t => t.2.insts.contains ty)).map
+      (fun t => { id := t.2.id, ty := ty, life := t.2.life, cloneIfNecessary := t.2.cloneIfNecessary })
+
+/-- ↔ `ConstructibleDb::get_or_try_bind`: the walk of `get`, each scope asked for a concrete entry and then for a template
+    before its parents are looked at -/
+def getT (g : SGraph) (regs : List (Nat × Ctor)) (tmpls : List (Nat × Tmpl)) (s ty : Nat) : Option Ctor :=
+  bfs g.parents (fun k => lookupT regs tmpls k ty) g.fuel [s]
+
+/-- the variant with a "fast path" that first looks for a concrete entry along the whole ancestor chain (what a seeded
+    change introduced): kept to show what `getT_nearest` excludes -/
+def getTFast (g : SGraph) (regs : List (Nat × Ctor)) (tmpls : List (Nat × Tmpl)) (s ty : Nat) : Option Ctor :=
+  match get g regs s ty with
+  | some c => some c
+  | none => getT g regs tmpls s ty
+
 end Pxv.Scope
